@@ -37,6 +37,9 @@ def setup(lib):
 def arr(spec):
     """spec = {"lens", "dtype", "vals", ["recv"]} -> (RaggedArray, rows, parent)"""
     flat = np.array(spec["vals"], dtype=spec["dtype"])
+    if spec.get("dense") and spec["lens"] and len(set(spec["lens"])) == 1:
+        # a plain 2-D numpy array as a (non-first) operand of a column-wise join, which the library accepts
+        return flat.copy().reshape(len(spec["lens"]), spec["lens"][0]), gen.split_rows(flat, spec["lens"]), None
     ra, parent = c02.build_receiver(spec.get("recv", "fresh"), flat, spec["lens"])
     return ra, gen.split_rows(flat, spec["lens"]), parent
 
@@ -75,7 +78,9 @@ def run(case):
                 tags.append("operand:norows")
             elif sum(s["lens"]) == 0:
                 tags.append("operand:allempty")
-        before = [peek(p[0]) for p in parts]
+        before = [peek(p[0]) if not isinstance(p[0], np.ndarray) else p[0].tolist() for p in parts]
+        if any(isinstance(p[0], np.ndarray) for p in parts):
+            tags.append("operand:dense-2d")
         desc = "np.concatenate(axis=%s) of arrays with row lengths %s" % (0 if op == "concat0" else -1, [s["lens"] for s in case["parts"]])
         if op == "concat0":
             exp = [r for p in parts for r in p[1]]
@@ -91,7 +96,7 @@ def run(case):
         r = check_rows(a.value, exp, desc, tags, edt)
         if r:
             return r
-        if not all(lists_same(peek(p[0]), b) for p, b in zip(parts, before)):
+        if not all(lists_same(peek(p[0]) if not isinstance(p[0], np.ndarray) else p[0].tolist(), b) for p, b in zip(parts, before)):
             return violated("%s modified an operand" % desc, tags)
         return held(tags, len(exp) >= 2 and sum(len(e) for e in exp) >= 1)
 
@@ -280,7 +285,11 @@ def gen_case(rng, tier, op=None, lens=None, dtype=None, recv=None):
         k = rng.randint(1, 3)
         n = len(L())
         dts = [dtype] * k if rng.random() < 0.6 else [rng.choice(gen.DT_ALL) for _ in range(k)]
-        return {"op": op, "parts": [spec(rng, [rng.choice([0, 0, 1, 2, 3]) for _ in range(n)], dts[i], rv()) for i in range(k)]}
+        parts = [spec(rng, [rng.choice([0, 0, 1, 2, 3]) for _ in range(n)], dts[i], rv()) for i in range(k)]
+        if k > 1 and n and rng.random() < 0.2:
+            w_ = rng.randint(1, 3)
+            parts[-1] = dict(spec(rng, [w_] * n, dts[-1]), dense=True)
+        return {"op": op, "parts": parts}
     if op in ("rslice_1d", "nps"):
         Lv = rng.randint(1, 9)
         k = rng.randint(0, 5)
